@@ -21,7 +21,9 @@ def gen_tree(rng, root, tier):
     sizes = [0, 1, 2, 100, 999, 1000, 1001, 4095, 4096, 4097, 65536, 131071, 131072, 131073, 262144 + 17]
     if tier == "thorough":
         sizes += [4 * 1024 * 1024 - 1, 4 * 1024 * 1024, 4 * 1024 * 1024 + 1]
-    comps = ["a", "b.txt", "dir", "sub dir", "hé世", "x" * 40, "data.bin", "UPPER", "dot.d", "-dash", "tab\tname" if False else "t_name"]
+    comps = ["a", "b.txt", "dir", "sub dir", "hé世", "x" * 40, "data.bin", "UPPER", "dot.d", "-dash", "tab\tname" if False else "t_name",
+             # two dots that are NOT a parent-directory component
+             "notes..txt", "v1..2", "...hidden", "trailing.."]
     files = {}
     n = rng.randint(1, 6)
     while len(files) < n:
